@@ -13,11 +13,11 @@ use std::sync::{Arc, Mutex};
 pub fn def() -> PropDef {
     PropDef {
         id: "C17",
-        rule: "histories: for a corpus of (function, argument) items over parse/uncompress/compress/rename/RR::from_string, the result of every item computed in a fresh process is the baseline; every ordered pair (and, thorough, triple) g(y); f(x) run back to back on one thread must reproduce f(x)'s baseline. schedules: 2 (thorough: also 3) real threads each running one item with the library's yield points (per name emitted / copied / replaced, per record parsed) as scheduling points, every interleaving with at most 2 (thorough 3) preemptions; randomness: empty()/query() twice differ at most in the id. distinct classes = (kind, function pair, outcome kinds)",
+        rule: "histories: for a corpus of (function, argument) items over parse/uncompress/compress/rename/RR::from_string, the result of every item computed in a fresh process is the baseline; every ordered pair (and, thorough, triple) g(y); f(x) run back to back on one thread must reproduce f(x)'s baseline. schedules: 2 (thorough: also 3) real threads each running one item with the library's yield points (per name emitted / copied / replaced, per record parsed) as scheduling points, every interleaving with at most 2 (thorough 3) preemptions; randomness: empty()/query() twice differ at most in the id. supplementary, outside the exhaustive claim: the concurrent items on 4 free-running threads (sampling; reaches windows without a yield point). distinct classes = (kind, function pair, outcome kinds)",
         run,
         replay,
         bounds: |t| json!({"corpus_items": items().len(), "concurrent_items": conc_items().len(), "history_length": t.pick(2, 3), "threads": t.pick(vec![2], vec![2, 3]), "preemption_bound": t.pick(2, 3), "max_executions_per_tuple": 30000}),
-        assumptions: &["scheduling granularity = the hook points inside the library; baseline = a fresh process per item"],
+        assumptions: &["scheduling granularity = the hook points inside the library; baseline = a fresh process per item", "the free-running pass is sampling: it can only add detections, it is not counted in states/transitions and its silence is no evidence"],
         budget_s: |t| t.pick(55, 1200),
         exhaustive: true,
         nshards: 16,
@@ -253,6 +253,7 @@ pub fn conc_items() -> Vec<Item> {
         Item::Compress(encode(&m, Strategy::Plain)),
         Item::Compress(encode(&m2, Strategy::Plain)),
         Item::Uncompress(encode(&m, Strategy::Max)),
+        Item::Uncompress(encode(&m2, Strategy::Max)),
         Item::Rename(encode(&m, Strategy::Max), nm("k"), a.clone(), true),
         Item::Rename(encode(&m2, Strategy::Plain), nm("q.r"), nm("x.y"), true),
         Item::Parse(encode(&m2, Strategy::Max)),
@@ -398,9 +399,70 @@ fn run(ctx: &mut Ctx, rep: &mut Report) {
             }
         }
     }
+    // supplementary pass, NOT part of the exhaustive claim: the same items on free-running threads (no
+    // baton), which reaches windows between two adjacent synchronisation operations where the library has
+    // no yield point. Sampling: silence here proves nothing; a mismatch is a real observation.
+    if !ctx.timed_out() {
+        let rounds = ctx.tier.pick(1, 6);
+        let iters = ctx.tier.pick(1500, 6000);
+        for round in 0..rounds {
+            rep.bump("free_running_calls_sampled", (FREE_THREADS * iters) as u64);
+            if let Some((i, got)) = free_running(&cits, &cbase, iters, ctx.shard as usize + round) {
+                rep.violation(&format!("free_running:{}", cits[i].fname()), format!("{} on free-running threads (sampling pass) returned a result different from its fresh-process baseline: {}", cits[i].fname(), &got[..got.len().min(80)]), json!({"kind": "free", "iters": iters, "rot": ctx.shard as usize + round}));
+                break;
+            }
+        }
+        rep.class("free-running sampled");
+    }
     if ctx.timed_out() {
         rep.cap("time budget reached".into());
     }
+}
+
+const FREE_THREADS: usize = 4;
+
+/// FREE_THREADS uncontrolled threads, each evaluating the concurrent items round-robin (each thread starts at
+/// a different item) `iters` times, then one more evaluation of every item on the calling thread. Returns
+/// the first (item, result) that differs from the baseline.
+fn free_running(cits: &[Item], cbase: &[String], iters: usize, rot: usize) -> Option<(usize, String)> {
+    let bad: Arc<Mutex<Option<(usize, String)>>> = Arc::new(Mutex::new(None));
+    let stop = Arc::new(std::sync::atomic::AtomicBool::new(false));
+    let gate = Arc::new(std::sync::Barrier::new(FREE_THREADS));
+    let mut hs = vec![];
+    for t in 0..FREE_THREADS {
+        let (cits, cbase, bad, stop, gate) = (cits.to_vec(), cbase.to_vec(), bad.clone(), stop.clone(), gate.clone());
+        hs.push(std::thread::spawn(move || {
+            // thread t alternates between two items so that different arguments of the same function collide
+            let n = cits.len();
+            let mine = [(t + rot) % n, (t + rot + 1 + (rot / n) % (n - 1)) % n];
+            gate.wait();
+            for k in 0..iters {
+                if stop.load(std::sync::atomic::Ordering::Relaxed) {
+                    break;
+                }
+                let i = mine[k % 2];
+                let r = eval(&cits[i]);
+                if r != cbase[i] {
+                    stop.store(true, std::sync::atomic::Ordering::Relaxed);
+                    bad.lock().unwrap().get_or_insert((i, r));
+                    break;
+                }
+            }
+        }));
+    }
+    for h in hs {
+        let _ = h.join();
+    }
+    if let Some(b) = bad.lock().unwrap().clone() {
+        return Some(b);
+    }
+    for (i, it) in cits.iter().enumerate() {
+        let r = eval(it);
+        if r != cbase[i] {
+            return Some((i, r));
+        }
+    }
+    None
 }
 
 fn execute(idx: &[usize], cits: &[Item], prefix: &[usize]) -> (Exec, Vec<String>) {
@@ -520,6 +582,19 @@ fn replay(case: &Value) -> Result<String, String> {
             let it = Item::from_json(&case["item"]);
             println!("RESULT {}", eval(&it));
             Ok("single item evaluated".into())
+        }
+        Some("free") => {
+            let cits = conc_items();
+            let cbase = baselines(&cits, "conc")?;
+            let iters = case["iters"].as_u64().unwrap_or(1500) as usize;
+            let rot = case["rot"].as_u64().unwrap_or(0) as usize;
+            for round in 0..40 {
+                if let Some((i, got)) = free_running(&cits, &cbase, iters, rot) {
+                    println!("round {}: {} returned {}", round, cits[i].fname(), &got[..got.len().min(120)]);
+                    return Err(format!("{} on free-running threads returned a result different from its fresh-process baseline (seen in round {} of at most 40)", cits[i].fname(), round));
+                }
+            }
+            Ok("not reproduced in 40 free-running rounds (this pass samples)".into())
         }
         Some("conc") => {
             let cits = conc_items();
